@@ -75,6 +75,11 @@ func (it *Interp) hash256(name string, native func([]byte) []byte, bs []*smt.Ter
 	it.addPC(c.And(c.Le(c.IntI(0), h), c.Lt(h, it.pow2(256))))
 	it.markNonNeg(h)
 	it.markLt256(h)
+	if ok, _ := it.M.extra["hash.scalars"].(bool); ok {
+		// harness assumption: digests are valid scalars (excludes a 2^-128 fraction of outputs)
+		it.addPC(c.And(c.Le(c.IntI(1), h), c.Lt(h, it.secpN())))
+		it.markReduced(h)
+	}
 	return it.intToBytes(h, 32)
 }
 
